@@ -572,3 +572,63 @@ def lifting_unit(ctx, res, col, reg, which):
             m = sol.model()
             ob.inputs = {str(d): str(m[d]) for d in m.decls()}
         col.obligations.append(ob)
+
+
+def replay_step(o):
+    """native confirmation of a failed reader-step obligation: the real UBXReader is run on the counter-model's stream
+    (from its position, with its options) and compared with the executable step specification iterated natively"""
+    import io
+    import os
+    info = {"reproduced": False}
+    inp = o.inputs or {}
+    S = inp.get("S") or inp.get("D")
+    if not isinstance(S, dict) or "data" not in S:
+        info["note"] = "no stream in the counter-model"
+        return info
+    data = bytes(S["data"])[int(S.get("pos", 0)):]
+    import contracts.specs as specs
+    from pyubx2 import UBXReader
+    src = open(os.path.join(os.path.dirname(specs.__file__), "reader_spec.py")).read()
+    ns = {"ext_parse": specs.n_ext_parse, "eol": specs.n_eol, "is_nmea_hdr2": specs.n_is_nmea_hdr2}
+    exec(compile(src, "reader_spec.py", "exec"), ns)
+    pf, parsing = int(inp.get("protfilter", 7)), bool(inp.get("parsing", True))
+    val, mode, pbf = int(inp.get("validate", 1)), int(inp.get("msgmode", 0)), int(inp.get("parsebf", 1))
+    lm = int(inp.get("labelmsm", 1))
+    good = bytes.fromhex("b562012200002369")  # a well-formed (empty NAV-CLOCK-class) UBX frame
+    extras = [b"", good, b"$GNGLL,5327.04319,N,00214.41396,W,223232.00,A,A*68\r\n" + good,
+              bytes.fromhex("d3000047ea4b") + good, bytes.fromhex("d300013e7b3538") + good]
+    variants = []
+    for ex_ in extras:
+        for q in (int(inp.get("quitonerror", 1)), 0, 1):
+            variants.append((data + ex_, q))
+            variants.append((ex_[:-len(good)] + data + good if ex_ else data, q))
+    optsets = [(pf, parsing, val)] + ([(7, True, 1), (7, True, 0)] if (pf, parsing) != (7, True) else [])
+    variants = [(d2, q, o_) for o_ in optsets for (d2, q) in variants]
+    for d2, q, (pf, parsing, val) in variants:
+        q = int(q) if int(q) in (0, 1) else 0
+        reports = []
+        real = []
+        try:
+            for raw, parsed in UBXReader(io.BytesIO(d2), protfilter=pf, parsing=parsing, validate=val, msgmode=mode,
+                                         parsebitfield=pbf, labelmsm=lm, quitonerror=q, errorhandler=lambda e: reports.append(e)):
+                real.append((raw, None if parsed is None else str(parsed)))
+        except Exception as e:  # noqa
+            real.append(("EXC", type(e).__name__))
+        spec, nrep, pos, guard = [], 0, 0, 0
+        while guard < 100000:
+            guard += 1
+            kind, pos, raw, parsed, err = ns["spec_step"](d2, pos, True, pf, parsing, val, mode, pbf, lm)
+            if kind == 0:
+                break
+            if kind == 1:
+                spec.append((raw, None if parsed is None else str(parsed)))
+            if kind == 3 and q == 1:
+                nrep += 1
+        if real != spec or len(reports) != nrep:
+            info.update(reproduced=True, stream=d2.hex(), options={"protfilter": pf, "parsing": parsing, "validate": val,
+                                                                   "msgmode": mode, "quitonerror": q},
+                        observed=f"real reader: {len(real)} items / {len(reports)} reports; specification: {len(spec)} items / {nrep} reports; "
+                                 f"real {real[:3]!r} spec {spec[:3]!r}"[:600])
+            return info
+    info["note"] = "real reader and specification agree on the counter-model's stream (socket-style or relational obligation)"
+    return info
